@@ -217,13 +217,14 @@ Section Body.
   | RT_anc : skipflag t dyn desel = false -> existsb (fun b => b) (m_skipif t) = false ->
              has_dyn MAncFailed (tid t) dyn = true ->
              rt_spec c E dyn desel w t f (mkTres OSkipPrevFailed w [])
-  | RT_persist : skipflag t dyn desel = false -> existsb (fun b => b) (m_skipif t) = false ->
-                 has_dyn MAncFailed (tid t) dyn = false -> persist_fires E w t = true ->
-                 rt_spec c E dyn desel w t f (mkTres OPersist (if dry_run c then w else record_states E w t) [])
   | RT_wouldmark : skipflag t dyn desel = false -> existsb (fun b => b) (m_skipif t) = false ->
-                   has_dyn MAncFailed (tid t) dyn = false -> persist_fires E w t = false ->
+                   has_dyn MAncFailed (tid t) dyn = false ->
                    has_dyn MWould (tid t) dyn = true ->
                    rt_spec c E dyn desel w t f (mkTres OWould w [])
+  | RT_persist : skipflag t dyn desel = false -> existsb (fun b => b) (m_skipif t) = false ->
+                 has_dyn MAncFailed (tid t) dyn = false -> has_dyn MWould (tid t) dyn = false ->
+                 persist_fires E w t = true ->
+                 rt_spec c E dyn desel w t f (mkTres OPersist (if dry_run c then w else record_states E w t) [])
   | RT_missing b : skipflag t dyn desel = false -> existsb (fun b => b) (m_skipif t) = false ->
                    has_dyn MAncFailed (tid t) dyn = false -> persist_fires E w t = false ->
                    has_dyn MWould (tid t) dyn = false -> verdict c E w t = inl b ->
@@ -263,9 +264,9 @@ Section Body.
     destruct (skipflag t dyn desel) eqn:H1; [apply RT_skip; auto|].
     destruct (existsb (fun b => b) (m_skipif t)) eqn:H2; [apply RT_skipif; auto|].
     destruct (has_dyn MAncFailed (tid t) dyn) eqn:H3; [apply RT_anc; auto|].
+    destruct (has_dyn MWould (tid t) dyn) eqn:H5; [apply RT_wouldmark; auto|].
     fold (persist_fires E w t).
     destruct (persist_fires E w t) eqn:H4; [apply RT_persist; auto|].
-    destruct (has_dyn MWould (tid t) dyn) eqn:H5; [apply RT_wouldmark; auto|].
     fold (verdict c E w t).
     destruct (verdict c E w t) as [b|[|]] eqn:H6.
     - eapply RT_missing; eauto.
@@ -529,11 +530,12 @@ Section Body.
   Theorem persist_spec c E dyn desel w t f :
     skipflag t dyn desel = false -> existsb (fun b => b) (m_skipif t) = false ->
     has_dyn MAncFailed (tid t) dyn = false ->
+    has_dyn MWould (tid t) dyn = false ->
     m_persist t = true -> all_exist E w t = true -> any_changed E w t = true ->
     run_task body c E dyn desel w t f =
     mkTres OPersist (if dry_run c then w else record_states E w t) [].
   Proof.
-    intros S1 S2 S3 P A Ch.
+    intros S1 S2 S3 SW P A Ch.
     assert (PF : persist_fires E w t = true) by (unfold persist_fires; rewrite P, A, Ch; auto).
     rt c E dyn desel w t f. destruct SP; auto; congruence.
   Qed.
@@ -550,6 +552,7 @@ Section Body.
   Theorem persist_then_unchanged c c' E dyn dyn' desel w t f f' :
     skipflag t dyn desel = false -> existsb (fun b => b) (m_skipif t) = false ->
     has_dyn MAncFailed (tid t) dyn = false ->
+    has_dyn MWould (tid t) dyn = false ->
     m_persist t = true -> all_exist E w t = true -> any_changed E w t = true ->
     dry_run c = false ->
     force c' = false -> skipflag t dyn' desel = false ->
@@ -557,8 +560,8 @@ Section Body.
     let w1 := r_world (run_task body c E dyn desel w t f) in
     run_task body c' E dyn' desel w1 t f' = mkTres OSkipUnchanged w1 [].
   Proof.
-    intros S1 S2 S3 P A Ch ND F' S1' S3' S4' w1. subst w1.
-    rewrite (persist_spec c E dyn desel w t f S1 S2 S3 P A Ch). rewrite ND. simpl.
+    intros S1 S2 S3 SW P A Ch ND F' S1' S3' S4' w1. subst w1.
+    rewrite (persist_spec c E dyn desel w t f S1 S2 S3 SW P A Ch). rewrite ND. simpl.
     apply unchanged_complete; auto.
     apply recorded_rows_match. apply all_exist_spec. exact A.
   Qed.
